@@ -1340,13 +1340,13 @@ func classifyRT(res *vkit.Result, c RTCase) {
 var PartRT = &vkit.Part[RTCase]{
 	Property: Property, Name: "roundtrip",
 	Rule:  "rapid: one value for every type per case - int64/uint64 from edges (min, max, +-1, 2^31, 2^32, 2^53+1, 2^63, the repo tests' literals), small and uniform; byte lists nil / empty / 1 / 2..40 elements biased to 0, 255, '/' and digits; instants as (seconds over all of int64 incl. year 1/9999/min/max, nanoseconds 0..999999999) and as int64 nanoseconds, in Local/UTC/+08:00; durations 0, +-1ns, min, max, unit boundaries, uniform; raw bytes of every length mod 3. Each JSON type goes through MarshalJSON (whose text must denote the value under the math/big reading) and UnmarshalJSON directly and as a struct member through all 9 pairings of encoding/json, jsonx std and jsonx fast; JsByte To/FromString; Duration TOML; SQL Value (must be a driver.Value) then Scan for UnixStamp, SQLTime2Unix, UnixNano2Time, Unix2Time (plus every integer kind Scan accepts), Base64Bytes (string and []byte); I64Hex/U64Hex/I64HexV2/U64HexV2 and back. Non-trivial: some field is not the zero value; distinct = distinct case JSON",
-	Quick: 12000, Thorough: 60000,
+	Quick: 36000, Thorough: 60000,
 	Gen: GenRT, Exec: ExecRT,
 }
 
 var PartToken = &vkit.Part[TokenCase]{
 	Property: Property, Name: "token",
 	Rule:  "rapid: one well-formed JSON scalar token per case from a grammar - 24% bare numbers -?int[.frac][e[+-]exp] (int from range boundaries of byte/int32/int64/uint64 +-1, 2^k+-1, 1..25 random digits, small), 3% null/true/false, 3% encoder output, the rest strings whose content is [blank][sign]digits[junk][blank] (leading zeros, 20+ digits), a '/'-list of such elements (with 256, -1, empty and odd elements), empty/blank, duration literals, hex/base-32 digit strings; 10% of strings written with \\u00XX or \\/ escapes. The token is given to UnmarshalJSON of JsInt64, JsUInt64, UnixStamp, JsUnixTime, JsNanoTime, JsByte, Duration directly and embedded in {\"v\":token} (25% padded with blanks and neighbours) through encoding/json, jsonx std and jsonx fast, onto targets preset to a sentinel; its text also to JsByte.FromString, Duration.UnmarshalTOML, HexI64/HexU64/HexI64V2/HexU64V2. Oracle: a math/big reading of the text written from the statement: a nil error obliges the decoder to exactly the denoted in-range value (empty content: zero allowed; null: sentinel unchanged allowed; surrounding blanks may be rejected or ignored); junk, fractions, out-of-range, non-byte elements, true/false require an error. Non-trivial: the token is not something the encoders under test emit (canonical decimal / byte list / Duration.String in an unescaped string); distinct = distinct case JSON",
-	Quick: 30000, Thorough: 200000,
+	Quick: 90000, Thorough: 200000,
 	Gen: GenToken, Exec: ExecToken,
 }
